@@ -330,7 +330,8 @@ def binding_selftest(rep, accepted, wdir, tag):
 
 def design_check(rep):
     def cfg(name, mut):
-        p = os.path.join(vlib.SPEC, "gen_%s.cfg" % name)
+        # C03 runs this design check too: the file name carries the process id, so that the two checks may run side by side
+        p = os.path.join(vlib.SPEC, "gen_%s_%d.cfg" % (name, os.getpid()))
         open(p, "w").write("SPECIFICATION Spec\nCONSTANTS\n  Mut = \"%s\"\n  LoopFuel = 20\n  NestedBlocksInheritNamespace = TRUE\n"
                            "INVARIANTS LawCallTransparent LawSequence LawIfTrue LawForSingle LawForEachUnroll LawExitWithSkipsRest LawExitWithFalse LawWhileFalse LawLazy LawSwitchFirstMatch\n" % mut)
         return os.path.basename(p)
@@ -343,6 +344,11 @@ def design_check(rep):
         if r2.violated != law:
             raise vlib.MachineryError("vacuity self-test: mutated semantics %s must violate %s, got %s" % (mut, law, r2.violated))
         rep.design_runs.append({"what": "mutated semantics %s violates %s (non-vacuity)" % (mut, law)})
+    for name in ("ref_ideal", "ref_mut"):
+        try:
+            os.remove(os.path.join(vlib.SPEC, "gen_%s_%d.cfg" % (name, os.getpid())))
+        except OSError:
+            pass
 
 
 def run(rep, tier, seed, replay):
